@@ -21,6 +21,15 @@ class RExt(object):
     def __repr__(self):
         return 'RExt(%d, %r)' % (self.type, self.data)
 
+    def __eq__(self, other):
+        return isinstance(other, RExt) and (self.type, self.data) == (other.type, other.data)
+
+    def __ne__(self, other):
+        return not self.__eq__(other)
+
+    def __hash__(self):
+        return hash(('ext', self.type, self.data))
+
 
 class RMap(object):
     __slots__ = ('pairs',)
@@ -219,7 +228,7 @@ def _hashable(k):
     if isinstance(k, list):
         return tuple(_hashable(i) for i in k)
     if isinstance(k, RExt):
-        raise TypeError('ext keys: hashability is implementation specific')
+        return ('ext', k.type, bytes(k.data))        # an ext value is a value like any other: it can be a map key
     return k
 
 
